@@ -421,7 +421,10 @@ pub const REC_CONTEXTS: [(EncryptionContext, &str); 3] = [(EncryptionContext::En
 pub fn recipient(cx: &Cx, r: &CoseRecipient, enc: &[u8], path: &[usize], aads: &[&[u8]], l: &mut Local) {
     let mut pp = path.to_vec();
     pp.push(0);
-    let body = slot_bytes(enc, &pp).unwrap_or_default();
+    let body = match (path.is_empty(), cx.body_override) {
+        (true, Some(b)) => b.to_vec(),
+        _ => slot_bytes(enc, &pp).unwrap_or_default(),
+    };
     let empty = vec![];
     for aad in aads {
         for (ctx, text) in REC_CONTEXTS {
